@@ -200,9 +200,10 @@ class Component( ComponentLevel7 ):
     for c in added_components:
       c._elaborate_read_write_func()
 
-    added_signals, added_method_ports = \
+    added_signals, added_method_ports, added_interfaces = \
       obj._collect_all( [ lambda x: isinstance( x, Signal ), \
-                          lambda x: isinstance( x, MethodPort ) ] )
+                          lambda x: isinstance( x, MethodPort ), \
+                          lambda x: isinstance( x, Interface ) ] )
 
     top._dsl.all_components    |= added_components
     top._dsl.all_signals       |= added_signals
@@ -211,6 +212,7 @@ class Component( ComponentLevel7 ):
     top._dsl.all_named_objects |= added_components
     top._dsl.all_named_objects |= added_signals
     top._dsl.all_named_objects |= added_method_ports
+    top._dsl.all_named_objects |= added_interfaces
 
     for c in added_components:
       top._collect_vars( c )
@@ -291,11 +293,12 @@ class Component( ComponentLevel7 ):
         delattr( parent, foo._dsl.my_name )
         parent._dsl.NamedObject_fields.remove( foo._dsl.my_name )
 
-      # Remove all components, signals, and method ports
-      removed_components, removed_signals, removed_method_ports = \
+      # Remove all components, signals, method ports, and interfaces
+      removed_components, removed_signals, removed_method_ports, removed_interfaces = \
         foo._collect_all( [ lambda x: isinstance( x, Component ), \
                             lambda x: isinstance( x, Signal ), \
-                            lambda x: isinstance( x, MethodPort ) ] )
+                            lambda x: isinstance( x, MethodPort ), \
+                            lambda x: isinstance( x, Interface ) ] )
 
       top._dsl.all_components    -= removed_components
       top._dsl.all_signals       -= removed_signals
@@ -303,7 +306,7 @@ class Component( ComponentLevel7 ):
 
       top._dsl.all_named_objects -= removed_components
 
-      removed_connectables = removed_signals | removed_method_ports
+      removed_connectables = removed_signals | removed_method_ports | removed_interfaces
       top._dsl.all_named_objects -= removed_connectables
 
       removed_consts = set()
